@@ -702,7 +702,7 @@ func Run(r *mc.Run) {
 		"leaf actions SSTORE(slot0|slot1, tag+txno) / SSTORE(0,0) / LOG1 / CALL(value) to an externally owned account or to an address that does not exist / CREATE and CREATE2 with init code {ok, reverting, oversize, invalid, storing+logging then returning a 300-byte runtime code (fails AT CODE DEPOSIT when less than 60000 gas is left)} (each init code first writes storage); " +
 		"entering actions CALL(value 0|1), CALLCODE, DELEGATECALL, STATICCALL to a higher-numbered contract, with gas classes {all, fixed mid-size allotment 22000, creation-sized allotment 90000 = pays CREATE and the init code but not the 300-byte deposit[, 0]}; " +
 		"terminators STOP/RETURN/REVERT/INVALID/out-of-gas/SELFDESTRUCT(self)/SELFDESTRUCT(other); contracts that are not reachable keep the trivial body so no program is visited twice; programs up to max_actions_total_for_create_entry actions are also entered as a creation transaction (K0's body as init code; with the further terminators RETURN(300-byte code) under an unlimited and a 60000 gas limit (deposit not payable) and RETURN(oversize)). " +
-		"Boundary probe: for every program of <= boundary_probe_max_actions_total actions whose entry body does not end in REVERT and that has a creation frame depositing the 300-byte code (programs of <= 1 action: any code), the gas limit of transaction 1 (then of transaction 2) is driven to the least limit at which the first such frame still pays its deposit (= it has exactly the deposit left), and every limit from boundary_probe_window/4 below to boundary_probe_window above it is run; all probing runs are judged like any program. " +
+		"Boundary probe: for every program of <= boundary_probe_max_actions_total actions whose entry body does not end in REVERT and that has a creation frame depositing the 300-byte code (programs of <= 1 action: any code, and transaction 2 as well), the gas limit of transaction 1 is driven to the least limit at which the first such frame still pays its deposit (= it has exactly the deposit left), and every limit from boundary_probe_window/4 below to boundary_probe_window above it is run; all probing runs are judged like any program. " +
 		"Each program is compiled to byte code and run by the real EVM (core/vm/runtime Call/Create, a vm.Tracer attached) as transaction 1 and again as transaction 2 after Finalise on the same StateDB reopened from a committed base. Besides the reference comparison, every frame's gas hand-back is checked against the observed frame: exceptional halt, unpayable deposit and oversize code hand back nothing, REVERT and success hand back exactly what was left (minus 200 per byte of deposited code). distinct = distinct (outcome of both transactions, final reference world) pairs"
 	r.SetExtra("bounds", b)
 	r.Assume("frames may always fail for lack of gas: where a frame runs out of gas is taken from the real execution (tracer), every other frame outcome is predicted by the reference and compared")
@@ -713,6 +713,18 @@ func Run(r *mc.Run) {
 	for n := 0; n <= minInt(b.MaxPerBody, b.MaxTotal); n++ {
 		outer = append(outer, l0[n]...)
 	}
+	// heaviest entry bodies first (those entering other contracts have the most
+	// completions), so that the workers finish together
+	weight := func(b Body) int {
+		n := 0
+		for _, a := range b.Acts {
+			if a.K >= ACall && a.K <= AStatic && a.Target <= tgK2 {
+				n++
+			}
+		}
+		return n
+	}
+	sort.SliceStable(outer, func(i, j int) bool { return weight(outer[i]) > weight(outer[j]) })
 	r.SetExtra("entry_bodies", len(outer))
 	hs := make([]*harness, r.Workers)
 	var programs int64
@@ -785,8 +797,9 @@ func Run(r *mc.Run) {
 // left (bisection is the fallback).  Then every limit from ProbeWindow/4 below
 // to ProbeWindow above the boundary is run: one unit short of the deposit,
 // deposit paid and the creator out of gas right after.  Every probing run is
-// judged like any other program.  Targets: the 300-byte deposits; the one-byte
-// deposits too in programs of at most one action.
+// judged like any other program.  Targets: the 300-byte deposits of
+// transaction 1; in programs of at most one action also the one-byte deposits
+// and the deposits of transaction 2.
 func (h *harness) probe(q *Program, total int, b *bounds, run func(*Program)) {
 	if total > b.ProbeTotal || q.Bodies[0].Term == TRevert {
 		return
@@ -794,6 +807,9 @@ func (h *harness) probe(q *Program, total int, b *bounds, run func(*Program)) {
 	var targets [2]string
 	var have [2]bool
 	for t := 0; t < 2; t++ {
+		if t == 1 && total > 1 {
+			continue // transaction 2 is probed in programs of at most one action
+		}
 		if len(h.deps[t]) > 0 && (h.deps[t][0].need > createDataGas || total <= 1) {
 			targets[t], have[t] = h.deps[t][0].key, true
 		}
